@@ -168,7 +168,20 @@ func genCase(t *rapid.T) Case {
 		// The controller prepares the duties of an epoch when it starts and proposes
 		// each at its slot: all prepared first, or one duty after the other, or a mix.
 		var order []string
-		switch uni(t, 3, "orderKind") {
+		switch uni(t, 4, "orderKind") {
+		case 3:
+			// Overlapping proposals: everything is prepared; then each duty's Propose
+			// is started and held at a generated point (waiting for the node's block,
+			// for the signer, or for the relay's answer - an earlier, slow proposal)
+			// while the Propose calls of the duties after it run; the last one runs
+			// through.  When it is done the held ones are let go, innermost first.
+			for i := 0; i <= n; i++ {
+				order = append(order, fmt.Sprintf("prepare:%d", i))
+			}
+			for i := 0; i < n; i++ {
+				order = append(order, fmt.Sprintf("overlap:%d:%s", i, pick(t, []string{"proposal", "sign", "unblind"}, "holdAt")))
+			}
+			order = append(order, fmt.Sprintf("propose:%d", n))
 		case 0: // prepare all, then propose in slot order of generation
 			for i := 0; i <= n; i++ {
 				order = append(order, fmt.Sprintf("prepare:%d", i))
@@ -398,7 +411,8 @@ type observation struct {
 	prepareErr    error
 	proposeCalled bool
 	elapsed       time.Duration
-	stuck         bool // a relay delivered, nothing was submitted within stuckBound, Propose still running with a live context
+	heldAt        string // the Propose call was held there while later duties were proposed
+	stuck         bool   // a relay delivered, nothing was submitted within stuckBound, Propose still running with a live context
 	returnSeq     int
 	ctxExpired    bool
 	panicked      string
@@ -465,8 +479,9 @@ func duties(c *Case) []*Case {
 }
 
 type step struct {
-	op   string
+	op   string // prepare | propose | overlap
 	duty int
+	hold string // overlap: where the duty's Propose is held while the rest of the order runs
 }
 
 // orderOf parses Case.Order; every duty is prepared exactly once before it is
@@ -478,14 +493,27 @@ func orderOf(c *Case, n int) []step {
 	ok := len(c.Order) > 0
 	for _, o := range c.Order {
 		var st step
-		if _, err := fmt.Sscanf(strings.Replace(o, ":", " ", 1), "%s %d", &st.op, &st.duty); err != nil || st.duty < 0 || st.duty >= n {
+		parts := strings.Split(o, ":")
+		if len(parts) < 2 {
 			ok = false
 			break
+		}
+		st.op = parts[0]
+		if _, err := fmt.Sscanf(parts[1], "%d", &st.duty); err != nil || st.duty < 0 || st.duty >= n {
+			ok = false
+			break
+		}
+		if len(parts) > 2 {
+			st.hold = parts[2]
 		}
 		switch {
 		case st.op == "prepare" && !prepared[st.duty]:
 			prepared[st.duty] = true
 		case st.op == "propose" && prepared[st.duty] && !proposed[st.duty]:
+			proposed[st.duty] = true
+		case st.op == "overlap" && prepared[st.duty] && !proposed[st.duty] && len(prepared) == n &&
+			(st.hold == "proposal" || st.hold == "sign" || st.hold == "unblind"):
+			// everything is prepared; from here on Propose calls overlap
 			proposed[st.duty] = true
 		default:
 			ok = false
@@ -497,7 +525,7 @@ func orderOf(c *Case, n int) []step {
 	}
 	res = nil
 	for i := 0; i < n; i++ {
-		res = append(res, step{"prepare", i}, step{"propose", i})
+		res = append(res, step{op: "prepare", duty: i}, step{op: "propose", duty: i})
 	}
 	return res
 }
@@ -514,6 +542,7 @@ func run(c *Case) (obs []*observation, harness string) {
 		worlds = append(worlds, w)
 		obs = append(obs, &observation{w: w})
 	}
+	rt.worlds = worlds
 	rt.set(worlds[0])
 	bg, cancelAll := context.WithCancel(context.Background())
 	defer cancelAll()
@@ -551,25 +580,62 @@ func run(c *Case) (obs []*observation, harness string) {
 	for i, d := range ds {
 		dutyObjs[i] = beaconblockproposer.NewDuty(phase0.Slot(d.DutySlot), phase0.ValidatorIndex(d.DutyIndex))
 	}
-	for _, st := range orderOf(c, len(ds)) {
-		d, w, o, duty := ds[st.duty], worlds[st.duty], obs[st.duty], dutyObjs[st.duty]
-		rt.set(w)
-		clock.SetSlot(d.DutySlot, 0)
-		if st.op == "prepare" {
-			o.prepareErr = svc.Prepare(bg, duty)
-			o.prepared = true
-			continue
-		}
-		if !o.prepared || o.prepareErr != nil {
-			continue
-		}
-		o.proposeCalled = true
-		propose(bg, svc, d, w, o, duty)
-		if o.hung || o.stuck {
-			// one lost proposal decides the history; do not spend more time on it
-			break
+	steps := orderOf(c, len(ds))
+	for _, st := range steps {
+		if st.op == "overlap" {
+			rt.setConcurrent(true)
+			worlds[st.duty].holdAt = st.hold
 		}
 	}
+	// exec runs the steps; it returns false when the history has been decided
+	// (a lost or hanging proposal) and no more time should be spent on it.
+	var exec func(steps []step) bool
+	exec = func(steps []step) bool {
+		for i, st := range steps {
+			d, w, o, duty := ds[st.duty], worlds[st.duty], obs[st.duty], dutyObjs[st.duty]
+			rt.set(w)
+			clock.SetSlot(d.DutySlot, 0)
+			if st.op == "prepare" {
+				o.prepareErr = svc.Prepare(bg, duty)
+				o.prepared = true
+				continue
+			}
+			if !o.prepared || o.prepareErr != nil {
+				continue
+			}
+			o.proposeCalled = true
+			rt.setActive(w, true)
+			if st.op == "propose" {
+				propose(bg, svc, d, w, o, duty)
+				rt.setActive(w, false)
+				if o.hung || o.stuck {
+					return false
+				}
+				continue
+			}
+			// overlap: this duty's Propose is started and held at its hold point (an
+			// earlier, slow proposal); the later proposals run meanwhile
+			r := startPropose(bg, svc, d, duty)
+			reached := false
+			select {
+			case <-w.held:
+				reached = true
+			case res := <-r.done:
+				r.done <- res // it returned without getting to the hold point
+			case <-time.After(10 * time.Second):
+			}
+			if reached {
+				o.heldAt = st.hold
+			}
+			goOn := exec(steps[i+1:])
+			close(w.release)
+			finishPropose(r, d, w, o)
+			rt.setActive(w, false)
+			return goOn && !o.hung && !o.stuck
+		}
+		return true
+	}
+	exec(steps)
 	for i, w := range worlds {
 		o := obs[i]
 		w.mu.Lock()
@@ -600,9 +666,20 @@ func liveSubmission(w *world) bool {
 
 // propose calls Propose for one duty under the case's deadline and watches it.
 func propose(bg context.Context, svc *proposer.Service, c *Case, w *world, o *observation, duty *beaconblockproposer.Duty) {
+	finishPropose(startPropose(bg, svc, c, duty), c, w, o)
+}
+
+// running is a Propose call in flight.
+type running struct {
+	ctx     context.Context
+	cancel  context.CancelFunc
+	done    chan string
+	started time.Time
+}
+
+func startPropose(bg context.Context, svc *proposer.Service, c *Case, duty *beaconblockproposer.Duty) *running {
 	started := time.Now()
 	ctx, cancel := context.WithTimeout(bg, time.Duration(c.DeadlineMs)*time.Millisecond)
-	defer cancel()
 	done := make(chan string, 1)
 	go func() {
 		defer func() {
@@ -614,6 +691,13 @@ func propose(bg context.Context, svc *proposer.Service, c *Case, w *world, o *ob
 		}()
 		svc.Propose(ctx, duty)
 	}()
+	return &running{ctx: ctx, cancel: cancel, done: done, started: started}
+}
+
+// finishPropose watches a Propose call until it returns (or is given up).
+func finishPropose(r *running, c *Case, w *world, o *observation) {
+	ctx, cancel, done, started := r.ctx, r.cancel, r.done, r.started
+	defer cancel()
 	watchdog := time.NewTimer(time.Duration(c.DeadlineMs)*time.Millisecond + 60*time.Second)
 	defer watchdog.Stop()
 	returned := false
@@ -795,6 +879,10 @@ func judge(c *Case, o *observation) (fs []finding, labels []string, inconclusive
 	// --- relay requests carry exactly the signed blinded block
 	exactSend := map[int]bool{}
 	for i, s := range o.sends {
+		if s.foreign != "" {
+			add("relay-request-not-signed-block", "relay %d of this duty's auction result (slot %d) was sent a blinded block of %s: another duty's block went to this duty's relay", s.relay, c.ProposalSlot, s.foreign)
+			continue
+		}
 		p := proposalBefore(s.seq)
 		sigs := okSignsBefore(s.seq)
 		if p == nil || len(sigs) == 0 {
@@ -1165,6 +1253,12 @@ func check(t ev.TB, c *Case) {
 		}
 		labels = append(labels, l...)
 		labels = append(labels, caseLabels(d)...)
+		if o.heldAt != "" {
+			labels = append(labels, "held-at:"+o.heldAt)
+			if d.Blinded {
+				labels = append(labels, "held-blinded-at:"+o.heldAt)
+			}
+		}
 		if o.empties > 0 {
 			labels = append(labels, "late-retry-without-block(refused-by-client)")
 		}
@@ -1218,7 +1312,15 @@ func historyLabels(c *Case, ds []*Case) []string {
 		}
 	}
 	st := orderOf(c, len(ds))
-	if len(st) >= 2 && st[0].op == "prepare" && st[1].op == "prepare" {
+	overlap := false
+	for _, x := range st {
+		if x.op == "overlap" {
+			overlap = true
+		}
+	}
+	if overlap {
+		l = append(l, "history:overlapping-proposals")
+	} else if len(st) >= 2 && st[0].op == "prepare" && st[1].op == "prepare" {
 		l = append(l, "history:prepared-ahead")
 	} else {
 		l = append(l, "history:one-after-the-other")
